@@ -58,7 +58,7 @@ SWITCHES = {
     # ncmpi_inq_header_extent on a file that was OPENED while it has no variables returns 0 (< header size) until the next
     # enddef: compute_var_shape() in ncmpio_header_get.c returns before setting ncp->begin_var when vars.ndefined == 0.
     # Confirmed defect, replays/C03/hext-zero-after-open-without-variables.json
-    "hext_after_open_without_vars": False,
+    "hext_after_open_without_vars": True,
 }
 
 
@@ -492,7 +492,7 @@ def case_strategy(draw, tier="quick"):
             g.emit({"op": "sync"})
     for i in range(nev):
         sim = g.sim
-        kind = draw(st.sampled_from(["redef"] * 6 + ["write"] * 6 + ["att_dm"] * 2 + ["ren_dm"] * 2 + ["sync"] * 2 + ["reopen"]))
+        kind = draw(st.sampled_from(["redef"] * 6 + ["write"] * 6 + ["att_dm"] * 2 + ["ren_dm"] * 2 + ["sync"] * 2 + ["reopen"] * 2))
         if kind == "redef":
             g.emit({"op": "redef"})
             g.block(initial=False)
